@@ -44,6 +44,14 @@ def judge(ctx, kind, graph_seed, knobs, a_mode, b_mode, p_outside):
         B = Path("other rel") / "B dir"
     obj, gen = graphs.make(kind, graph_seed, audio_root=A, p_outside=p_outside, **knobs)
     recs = _recordings(obj)
+    if graph_seed % 7 == 2 and recs:
+        # coincidence: the (relative) load directory is spelled like the first component(s) of a stored path
+        try:
+            rel = PurePosixPath(str(next(iter(recs.values())).path)).relative_to(PurePosixPath(str(A)))
+            if len(rel.parts) > 1:
+                B = Path(*rel.parts[: 1 + (graph_seed % 2 if len(rel.parts) > 2 else 0)])
+        except ValueError:
+            pass
     any_outside = any(not str(r.path).startswith(str(A) + "/") for r in recs.values())
     a_arg = {"none": None, "str": str(A), "path": A, "slash": str(A) + "/"}[a_mode]
     b_arg = {"none": None, "same": a_arg, "str": str(B), "path": B}[b_mode]
